@@ -582,6 +582,9 @@ func genC04(o *Out, rng *rand.Rand, tier string) {
 	}()
 	// (a) exhaustive small scope: every options area over the structural alphabet
 	alpha := []byte{0, 1, 2, 3, 82, 255}
+	for _, w := range overloadWires(rng) {
+		emit(w, "option-overload-fields")
+	}
 	var rec func(cur []byte)
 	rec = func(cur []byte) {
 		emitArea(cur, "exhaustive-area")
